@@ -46,7 +46,8 @@ META = {
     "level_note": "",
 }
 COQ_TARGETS = ["Gen/C04_current.vo", "C04/Enc.vo", "C04/ProofsStr.vo", "C04/ProofsGhost.vo", "C04/ProofsPrint.vo",
-               "C04/ProofsParse.vo", "C04/ProofsRound.vo", "Props/C04.vo"]
+               "C04/ProofsParse.vo", "C04/ProofsRound.vo", "C04/ProofsTree.vo", "C04/ProofsLex.vo", "C04/ProofsWit.vo",
+               "Props/C04.vo"]
 REQ = ["C04.Model", "C04.Enc", "Gen.C04_current"]
 ASSUMPTIONS = []
 TRUSTED = []
@@ -451,11 +452,18 @@ def generate(ctx: Ctx):
     core = R.extract(CORE_PY, ["_VALUE_NAME_PATTERN", "_VALUE_NAME_SUFFIX_PATTERN"])
     lex = R.extract(LEXER_PY, ["_suffix_id"])
     e_name, e_suf, e_sid = core["_VALUE_NAME_PATTERN"], core["_VALUE_NAME_SUFFIX_PATTERN"], lex["_suffix_id"]
+    pin = R.Extracted("PINNED_NAME", PINNED_NAME, False, 0, 0)
+    rep = R.Extracted("PROPOSED_NAME", PINNED_NAME, True, 0, 0)
     regs = {
+        "pin_r_name": (pin, R.parse(PINNED_NAME, False, "c04.py:PINNED_NAME")),
+        "rep_r_name": (rep, R.parse(PINNED_NAME, True, "c04.py:PROPOSED_NAME (re.ASCII)")),
         "cur_r_name": (e_name, R.parse(e_name.pattern, e_name.ascii, "ir/core.py:_VALUE_NAME_PATTERN")),
         "cur_r_name_suffix": (e_suf, R.parse(e_suf.pattern, e_suf.ascii, "ir/core.py:_VALUE_NAME_SUFFIX_PATTERN")),
         "cur_r_suffix_id": (e_sid, R.parse(e_sid.pattern, e_sid.ascii, "mlir_lexer.py:_suffix_id")),
     }
+    if e_name.pattern != PINNED_NAME:
+        raise Untranslatable(f"_VALUE_NAME_PATTERN = {e_name.pattern!r}: not the pattern the hand model of is_valid_name "
+                             "(Model.valid_name) describes")
     if e_suf.pattern not in (PINNED_SUFFIX, PROPOSED_SUFFIX):
         raise Untranslatable(f"_VALUE_NAME_SUFFIX_PATTERN = {e_suf.pattern!r}: neither the pinned nor the proposed pattern; "
                              "the hand model of extract_valid_name (Model.strip) does not describe it")
@@ -483,6 +491,7 @@ def generate(ctx: Ctx):
         name: {"source": e.name, "line": e.lineno, "pattern": e.pattern, "ascii": e.ascii}
         for name, (e, node) in regs.items()}
     ctx.coverage["code_switches_read_from_probes"] = sw
+    ctx.coverage["name_pattern_ascii_flag"] = e_name.ascii
 
 
 # ------------------------------------------------------------------------------------------------
@@ -1052,6 +1061,306 @@ def run_passes_on(m, rng, max_passes=2):
 
 
 # ------------------------------------------------------------------------------------------------
+# M3: token-level generic syntax
+#
+# rich case = skeleton case + "types": {value id: type code}, and per op "props"/"attrs": [[key, val|None]...]
+# atoms: [2, k] bare identifier, [3, k] string literal, [4, k] @symbol   (codes as in Model.v)
+
+OP_NAMES = {"test.op": 2, "test.termop": 4, "c04.iso": 3, "c04.isoterm": 5, "builtin.module": 7}
+BARE = {"prop1": 1, "prop2": 2, "prop3": 3, "ka": 10, "kb": 11, "kc": 12, "i32": 100, "index": 101, "f32": 102, "i1": 103}
+STRS = {"s0": 100, "s 1": 101, "q k": 102, "": 103}
+SYMS = {"f0": 1, "g1": 2}
+TYPE_CODES = [100, 101, 102, 103]
+INV = {"bare": {v: k for k, v in BARE.items()}, "str": {v: k for k, v in STRS.items()},
+       "op": {v: k for k, v in OP_NAMES.items()}, "sym": {v: k for k, v in SYMS.items()}}
+PUNCT = {"L_PAREN": 10, "R_PAREN": 11, "L_BRACE": 12, "R_BRACE": 13, "L_SQUARE": 14, "R_SQUARE": 15, "LESS": 16,
+         "GREATER": 17, "COMMA": 18, "COLON": 19, "EQUAL": 20, "ARROW": 21}
+PUNCT_TEXT = {10: "(", 11: ")", 12: "{", 13: "}", 14: "[", 15: "]", 16: "<", 17: ">", 18: ",", 19: ":", 20: "=", 21: "->"}
+COQ_PUNCT = {10: "TLP", 11: "TRP", 12: "TLB", 13: "TRB", 14: "TLS", 15: "TRS", 16: "TLT", 17: "TGT", 18: "TComma",
+             19: "TColon", 20: "TEq", 21: "TArrow"}
+
+
+def attr_of_atom(a):
+    from xdsl.dialects import builtin
+    kind, k = a
+    if kind == 2:
+        return {100: builtin.i32, 101: builtin.IndexType(), 102: builtin.f32, 103: builtin.i1}[k]
+    if kind == 3:
+        return builtin.StringAttr(INV["str"][k])
+    return builtin.SymbolRefAttr(INV["sym"][k])
+
+
+def atom_of_attr(a):
+    from xdsl.dialects import builtin
+    if isinstance(a, builtin.UnitAttr):
+        return -1
+    if isinstance(a, builtin.StringAttr):
+        return [3, STRS.get(a.data, 999)]
+    if isinstance(a, builtin.SymbolRefAttr):
+        return [4, SYMS.get(a.root_reference.data, 999)]
+    t = attr_text(a)
+    return [2, BARE.get(t, 999)]
+
+
+def key_atom(text):
+    return [2, BARE[text]] if text in BARE else [3, STRS.get(text, 999)]
+
+
+def key_text(a):
+    return INV["bare"][a[1]] if a[0] == 2 else INV["str"][a[1]]
+
+
+def gen_rich(rng, budget=8, one_type=False):
+    """one_type: every type keyword is i32 (the model's name resolution does not track types, so a
+    mutated stream must not be able to produce a type clash)"""
+    case = gen_skeleton(rng, PLAIN_POOL, budget=budget, p_iso=0.25)
+    types = {}
+    tc = [100] if one_type else TYPE_CODES
+    for o in walk_ops(case):
+        for v in o["rid"]:
+            types[v] = rng.choice(tc)
+        for r in o["regs"]:
+            for b in r:
+                for v, _ in b["args"]:
+                    types[v] = rng.choice(tc)
+        vals = [[2, 100], [2, 101], [2, 102], [3, 100], [3, 101], [3, 103], [4, 1], [4, 2], None]
+        if one_type:
+            vals = [[2, 100], [3, 100], [3, 101], [3, 103], [4, 1], [4, 2], None]
+        o["props"] = []
+        pnames = ["prop1", "prop2", "prop3"] if o["k"] in ("op", "term") else ["prop1"]
+        for pn in pnames:
+            if rng.random() < 0.3:
+                o["props"].append([[2, BARE[pn]], rng.choice(vals)])
+        o["attrs"] = []
+        for kn in rng.sample(["ka", "kb", "kc", "q k", "s 1"], rng.choice([0, 0, 1, 2, 3])):
+            o["attrs"].append([key_atom(kn), rng.choice(vals)])
+    case["types"] = {str(k): v for k, v in types.items()}
+    return case
+
+
+def build_rich(case):
+    """like build_module, with types, properties and attributes"""
+    from xdsl.dialects import builtin, test
+    from xdsl.dialects.builtin import ModuleOp
+    from xdsl.ir import Block, Region
+    c04_dialect()
+    types = {int(k): attr_of_atom([2, v]) for k, v in case["types"].items()}
+    values, blocks, patches = {}, {}, []
+
+    def set_hint(obj, raw):
+        if raw is not None:
+            try:
+                obj.name_hint = raw
+            except ValueError:
+                pass
+
+    def pre_blocks(op):
+        for r in op["regs"]:
+            for b in r:
+                blk = Block(arg_types=[types[v] for v, _ in b["args"]])
+                blocks[b["id"]] = blk
+                set_hint(blk, b["h"])
+                for a, (vid, raw) in zip(blk.args, b["args"]):
+                    values[vid] = a
+                    set_hint(a, raw)
+                for o in b["ops"]:
+                    pre_blocks(o)
+
+    dummies = {}
+
+    def dummy(t):
+        if t not in dummies:
+            dummies[t] = test.TestOp(result_types=[t]).results[0]
+        return dummies[t]
+
+    def mk_op(op):
+        regions = []
+        for r in op["regs"]:
+            blks = []
+            for b in r:
+                blk = blocks[b["id"]]
+                for o in b["ops"]:
+                    blk.add_op(mk_op(o))
+                blks.append(blk)
+            regions.append(Region(blks))
+        cls = {"op": test.TestOp, "term": test.TestTermOp, "iso": _STATE["IsoOp"], "isoterm": _STATE["IsoTermOp"]}[op["k"]]
+        kw = dict(operands=[dummy(types[a]) for a in op["args"]], result_types=[types[v] for v in op["rid"]],
+                  regions=regions,
+                  properties={key_text(k): (attr_of_atom(v) if v else builtin.UnitAttr()) for k, v in op["props"]},
+                  attributes={key_text(k): (attr_of_atom(v) if v else builtin.UnitAttr()) for k, v in op["attrs"]})
+        if op["k"] in ("term", "isoterm"):
+            kw["successors"] = [blocks[s] for s in op["succ"]]
+        o = cls.create(**kw)
+        for vid, raw, r in zip(op["rid"], op["res"], o.results):
+            values[vid] = r
+            set_hint(r, raw)
+        for i, a in enumerate(op["args"]):
+            patches.append((o, i, a))
+        return o
+
+    top = {"regs": [[{"id": -1, "h": None, "args": [], "ops": case["ops"]}]]}
+    pre_blocks(top)
+    body = blocks[-1]
+    for o in case["ops"]:
+        body.add_op(mk_op(o))
+    for o, i, a in patches:
+        o.operands[i] = values[a]
+    return ModuleOp.create(regions=[Region([body])]), values, blocks
+
+
+def lex_model_tokens(text):
+    """the real lexer's tokens in the model's encoding; None if a token has no model counterpart"""
+    from xdsl.utils.exceptions import ParseError
+    from xdsl.utils.lexer import Input
+    from xdsl.utils.mlir_lexer import MLIRLexer, MLIRTokenKind
+    lx = MLIRLexer(Input(text, "<c04>"))
+    out = []
+    try:
+        while True:
+            t = lx.lex()
+            k = t.kind
+            if k is MLIRTokenKind.EOF:
+                return out
+            if k is MLIRTokenKind.PERCENT_IDENT:
+                out.append([0, [ord(c) for c in t.text[1:]]])
+            elif k is MLIRTokenKind.CARET_IDENT:
+                out.append([1, [ord(c) for c in t.text[1:]]])
+            elif k is MLIRTokenKind.BARE_IDENT:
+                out.append([2, BARE.get(t.text, 999)])
+            elif k is MLIRTokenKind.STRING_LIT:
+                body = t.kind.get_string_literal_value(t.span) if hasattr(t.kind, "get_string_literal_value") else t.text[1:-1]
+                out.append([3, OP_NAMES[body] if body in OP_NAMES else STRS.get(body, 999)])
+            elif k is MLIRTokenKind.AT_IDENT:
+                out.append([4, SYMS.get(t.text[1:], 999)])
+            elif k.name in PUNCT:
+                out.append(PUNCT[k.name])
+            else:
+                return None
+    except ParseError:
+        return None
+
+
+def tokens_text(toks):
+    out = []
+    for t in toks:
+        if isinstance(t, int):
+            out.append(PUNCT_TEXT[t])
+        elif t[0] == 0:
+            out.append("%" + "".join(map(chr, t[1])))
+        elif t[0] == 1:
+            out.append("^" + "".join(map(chr, t[1])))
+        elif t[0] == 2:
+            out.append(INV["bare"][t[1]])
+        elif t[0] == 3:
+            out.append('"' + (INV["op"][t[1]] if t[1] < 100 else INV["str"][t[1]]) + '"')
+        else:
+            out.append("@" + INV["sym"][t[1]])
+    return " ".join(out)
+
+
+def coq_tok(t):
+    if isinstance(t, int):
+        return COQ_PUNCT[t]
+    return ["(TPct %s)", "(TCaret %s)", "(TBare %s)", "(TStrL %s)", "(TAt %s)"][t[0]] % (
+        coq_cps(t[1]) if t[0] < 2 else str(t[1]))
+
+
+def coq_atom(a):
+    return ["", "", "(ABare %d)", "(AStr %d)", "(AAt %d)"][a[0]] % a[1]
+
+
+def coq_rich(case, ht):
+    m, values, blocks = build_rich(case)
+    types = {int(k): v for k, v in case["types"].items()}
+
+    def vh(vid):
+        return f"(vh {vid} {ht.ref(stored_hint(values[vid]))})"
+
+    def ents(es):
+        return coq_list_p((f"(en {coq_atom(k)} {coq_atom(v)})" if v else f"(eu {coq_atom(k)})") for k, v in es)
+
+    def blk(b):
+        args = coq_list_p(f"({vh(v)}, ABare {types[v]})" for v, _ in b["args"])
+        return f"(sk_bkx {b['id']} {ht.ref(stored_hint(blocks[b['id']]))} {args} {coq_list_p(op(o) for o in b['ops'])})"
+
+    def op(o):
+        regs = coq_list_p(coq_list_p(blk(b) for b in r) for r in o["regs"])
+        it = coq_list_p(f"(ABare {types[a]})" for a in o["args"])
+        ot = coq_list_p(f"(ABare {types[v]})" for v in o["rid"])
+        return (f"(sk_opx {KIND_CODE[o['k']]} {coq_list_p(vh(v) for v in o['rid'])} {coq_list_p(vh(a) for a in o['args'])} "
+                f"{coq_list_p(str(s) for s in o['succ'])} {ents(o['props'])} {regs} {ents(o['attrs'])} {it} {ot})")
+
+    body = f"(sk_bkx (-1) 0 nil {coq_list_p(op(o) for o in case['ops'])})"
+    return f"(sk_opx 7 nil nil nil nil (cons (cons {body} nil) nil) nil nil nil)"
+
+
+def m3_print_impl(case):
+    m, _, _ = build_rich(case)
+    toks = lex_model_tokens(generic_text(m))
+    return -1 if toks is None else hsx(toks)
+
+
+def real_payload(m):
+    from xdsl.irdl import IRDLOperation
+    out = []
+
+    def w(op):
+        out.append([0, OP_NAMES.get(op.name, 999),
+                    [[key_atom(k) if k in BARE or k in STRS else [3, 999], atom_of_attr(v)] for k, v in op.properties.items()],
+                    [[key_atom(k) if k in BARE or k in STRS else [3, 999], atom_of_attr(v)] for k, v in op.attributes.items()],
+                    [atom_of_attr(x.type) for x in op.operands], [atom_of_attr(x.type) for x in op.results]])
+        for reg in op.regions:
+            for b in reg.blocks:
+                out.append([1, [atom_of_attr(a.type) for a in b.args]])
+                for o in b.ops:
+                    w(o)
+    w(m)
+    return out
+
+
+def m3_parse_impl(case):
+    from xdsl.parser import Parser
+    from xdsl.utils.exceptions import ParseError
+    text = tokens_text(case["toks"])
+    try:
+        m2 = Parser(new_context(), text).parse_module()
+    except ParseError:
+        return [-1, 1]
+    return [0, hsx(canon_leaves(m2)), hsx(real_payload(m2))]
+
+
+def m3_parse_expr(case):
+    return f"c04_m3_parse cur_cfg {coq_list_p(coq_tok(t) for t in case['toks'])}"
+
+
+def m3_parse_holds(case, res):
+    if not case.get("pristine"):
+        return True, ""
+    if res[0] != 0:
+        return False, "the unmodified generic text of a verified module does not parse"
+    return True, ""
+
+
+def mutate_tokens(rng, toks):
+    toks = list(toks)
+    for _ in range(rng.choice([1, 1, 2])):
+        if not toks:
+            break
+        i = rng.randrange(len(toks))
+        k = rng.random()
+        if k < 0.4:
+            del toks[i]
+        elif k < 0.6:
+            toks.insert(i, toks[i])
+        elif k < 0.8 and i + 1 < len(toks):
+            toks[i], toks[i + 1] = toks[i + 1], toks[i]
+        else:
+            toks[i] = rng.choice(list(PUNCT_TEXT))
+    return toks
+
+
+
+# ------------------------------------------------------------------------------------------------
 
 
 def replay_case(ctx, witness):
@@ -1066,7 +1375,7 @@ def replay_case(ctx, witness):
     return 0
 
 
-PRELUDE = "Notation vh := (vh_ h).\nNotation sk_bk := (sk_bk_ h).\n"
+PRELUDE = "Notation vh := (vh_ h).\nNotation sk_bk := (sk_bk_ h).\nNotation sk_bkx := (sk_bkx_ h).\n"
 
 
 def run(ctx: Ctx):
@@ -1098,6 +1407,25 @@ def run(ctx: Ctx):
     ncases = gen_name_cases(rng, 3000 if thorough else 500)
     differential(ctx, DiffSpec("name-functions", REQ, ncases, namefn_impl, namefn_expr, namefn_holds, namefn_known,
                                lambda c, r: tuple(c["s"]) if r[0] != -1 else None, shard=400))
+    # (1c) M3: token streams of rich operations, and the parser on pristine and mutated streams
+    rcases = [gen_rich(rng, budget=rng.choice([4, 8, 12])) for _ in range(600 if thorough else 120)]
+    rcases = [c for c in rcases if not defect_classes(build_rich(c)[0]) or True]
+    ht3 = HintTable()
+    e3 = {id(c): f"c04_m3_print cur_cfg {coq_rich(c, ht3)}" for c in rcases}
+    differential(ctx, DiffSpec("m3-token-stream", REQ, rcases, m3_print_impl, lambda c: e3[id(c)], None, None,
+                               lambda c, r: r if r != -1 else None, prelude=ht3.prelude() + PRELUDE, shard=60))
+    pcases = []
+    for _ in range(500 if thorough else 100):
+        c = gen_rich(rng, budget=rng.choice([3, 6, 10]), one_type=True)
+        m = build_rich(c)[0]
+        toks = lex_model_tokens(generic_text(m))
+        if toks is None or [k for k in defect_classes(m) if k not in ("C04-kf-6", "C04-kf-7")]:
+            continue
+        pcases.append({"toks": toks, "pristine": verifies(m)})
+        for _ in range(3):
+            pcases.append({"toks": mutate_tokens(rng, toks), "pristine": False})
+    differential(ctx, DiffSpec("m3-parse-mutated", REQ, pcases, m3_parse_impl, m3_parse_expr, m3_parse_holds, None,
+                               lambda c, r: json.dumps(c["toks"]) if r[0] == 0 else None, shard=60))
     # (2) corpus, oracle only
     chunks = corpus_chunks()
     pick_n = len(chunks) if thorough else 250
